@@ -89,7 +89,43 @@ func genCase(t *rapid.T) arith.Case {
 			}
 		}
 	case "pow":
-		if gen.Pick(t, 25, "hugeint") == 0 {
+		if gen.Pick(t, 40, "atlimit") == 1 {
+			// a small integer power whose exact value fits and lands within a few decades of the
+			// package's exponent limits (the working context of Pow has the same limits)
+			n := rapid.IntRange(2, 9).Draw(t, "aln")
+			co := rapid.IntRange(1, 99).Draw(t, "alc")
+			e := (gen.Limit - rapid.IntRange(0, 45).Draw(t, "alr")) / n
+			if rapid.Bool().Draw(t, "allow") {
+				e = -e
+			} else {
+				e -= 20 // leave room for the digits of the power below +100000
+			}
+			c.X = core.Dec{Coeff: fmt.Sprint(co), Exp: int32(e)}
+			c.Y = core.Dec{Coeff: fmt.Sprint(n)}
+			c.Ctx.Emax, c.Ctx.Emin = gen.Limit, -gen.Limit
+			if c.Ctx.P < 20 {
+				c.Ctx.P = 20
+			}
+		} else if gen.Pick(t, 30, "bigpow") == 1 {
+			// a base within 10^-k of one raised to an integer of about k digits: the result stays
+			// moderate while the integer power runs through dozens of squarings
+			k := rapid.IntRange(3, 11).Draw(t, "bpk")
+			m := rapid.IntRange(1, 999).Draw(t, "bpm")
+			one := new(big.Int).Exp(big.NewInt(10), big.NewInt(int64(k+2)), nil)
+			if rapid.Bool().Draw(t, "bpminus") {
+				one.Sub(one, big.NewInt(int64(m)))
+			} else {
+				one.Add(one, big.NewInt(int64(m)))
+			}
+			c.X = core.Dec{Coeff: one.String(), Exp: int32(-(k + 2))}
+			y := gen.DigitsN(t, k, 0, "bpy")
+			c.Y = core.Dec{Coeff: y, Neg: gen.Pick(t, 4, "bpneg") == 0}
+			if gen.Pick(t, 4, "bpfrac") == 0 { // with a fractional part as well
+				c.Y.Coeff += fmt.Sprint(rapid.IntRange(1, 9).Draw(t, "bpf"))
+				c.Y.Exp = -1
+			}
+			c.Ctx.Emax, c.Ctx.Emin = 1000, -1000
+		} else if gen.Pick(t, 25, "hugeint") == 0 {
 			// a small base to a huge integer power: far outside the range in either direction
 			c.X = core.Dec{Coeff: []string{"2", "10", "5", "11", "3"}[gen.Pick(t, 5, "hb")], Exp: int32(-gen.Pick(t, 2, "hbe"))}
 			c.Y = core.Dec{Coeff: fmt.Sprint(rapid.IntRange(90000, 500000).Draw(t, "hy")), Neg: rapid.Bool().Draw(t, "hyn")}
